@@ -460,6 +460,37 @@ def gen_cases(ctx, rng, scale):
             row_P.append(len(col_P))
         add({"kind": "GM", "N": N, "row": row_P, "col": col_P, "val": val_P, "Y": qs(Y),
              "theta": fr(rng.choice([Fraction(0), Fraction(1, 8), Fraction(1, 2), Fraction(1)]))}, tag)
+    # ---- round 5 ---------------------------------------------------------------------------------------
+    # GB on anisotropic maps: "every map configuration reached during optimisation" includes filaments.  The quadtree's
+    # cells inherit the aspect ratio of the root box (hw and hh come from the two extents independently), so the
+    # opening criterion is exercised with hh >> hw (tall) and hw >> hh (wide), centred and far from the origin.  Same
+    # thresholds as GB above (measured on /repo d944bac over 240 such maps: 0.19 / 4e-3 / 1.5e-15 at theta 0.5 / 0.1 / 1e-6)
+    for j in range(3 * scale):
+        N = rng.choice([10, 25, 60])
+        small = rng.choice([1e-2, 1e-4, 1e-6, 1e-9])
+        sx, sy = (small, 1.0) if j % 2 == 0 else (1.0, small)
+        if rng.random() < 0.25:
+            sx, sy = sx * 100.0, sy * 100.0
+        ox, oy = rng.choice([(0.0, 0.0), (3.0, -7.0)])
+        Y = [[rng.gauss(0, 1) * sx + ox, rng.gauss(0, 1) * sy + oy] for _ in range(N)]
+        edges = {}
+        for a in range(N):
+            for b in rng.sample(range(N), min(N - 1, 4)):
+                if a != b:
+                    edges[(min(a, b), max(a, b))] = rng.random()
+        tot = 2 * sum(edges.values()) or 1.0
+        rows = [[] for _ in range(N)]
+        for (a, b), v in edges.items():
+            rows[a].append((b, v / tot))
+            rows[b].append((a, v / tot))
+        row_P, col_P, val_P = [0], [], []
+        for r in rows:
+            for cidx, v in r:
+                col_P.append(cidx)
+                val_P.append(fl(v))
+            row_P.append(len(col_P))
+        add({"kind": "GB", "N": N, "row": row_P, "col": col_P, "val": val_P,
+             "Y": [[fl(x) for x in p] for p in Y]}, "GB/tall" if j % 2 == 0 else "GB/wide")
     return cases, hist
 
 
@@ -1851,7 +1882,7 @@ def run(ctx):
              "cases from corpus + count-driven generators (per tier) for ten harness entry points; exact streams on "
              "dyadic inputs (DD, ZM, SY, VP with integer distances, PK neighbour sets), tolerance streams (PD/PK row "
              "values 2e-4 vs transliterated loop, entropy 1e-4, GE 1e-9 vs extracted closed form and 1e-5 vs finite "
-             "differences of KL, GB thresholds 0.25/0.02/1e-7 for theta 0.5/0.1/1e-6, EE 1e-9, API: centred 1e-9, "
+             "differences of KL, GB thresholds 0.25/0.02/1e-7 for theta 0.5/0.1/1e-6 (round 5: also on tall and wide filament maps, aspect 1e2..1e9, centred and offset), EE 1e-9, API: centred 1e-9, "
              "nearest-map-neighbour purity >= 90%); non-trivial = at least 3 samples / 3 stored entries; distinct by "
              "hash of the case; evaluations = harness calls + extracted decision-procedure calls on outputs",
         samples=[{kk: (v if not isinstance(v, list) else v[:4]) for kk, v in c.items()} for c in cases[:2] + cases[60:62] + api[:1]],
